@@ -218,18 +218,24 @@ class Module:
         t = self.resolve(t)
         k = t["k"]
         if k == "BOOLEAN":
-            return ["T" if v else "F"]
+            return [("T2" if rep == "true" else "T") if v else "F"]
         if k == "NULL":
             return ["N"]
         if k == "INTEGER":
             n = big_to_int(v)
-            return ["I%d/%s" % (n, twos_complement_hex(n))]
+            h = twos_complement_hex(n)
+            if rep == "pad":
+                h = ("ffff" if n < 0 else "0000") + h
+            return ["I%d/%s" % (n, h)]
         if k == "ENUM":
             return ["E%d/%s" % (v, twos_complement_hex(v))]
         if k == "REAL":
             return ["R" + bytes(v).hex()]
         if k == "BITS":
-            return ["B%d:%s" % (v["n"], bytes(v["o"]).hex())]
+            o = list(v["o"])
+            if rep == "noise" and v["n"] % 8:
+                o[-1] |= (1 << (8 - v["n"] % 8)) - 1
+            return ["B%d:%s" % (v["n"], bytes(o).hex())]
         if k == "OCTETS":
             return ["O" + bytes(v).hex()]
         if k == "STRING":
@@ -241,16 +247,21 @@ class Module:
         if k in ("SEQUENCE", "SET"):
             out = ["{"]
             for c, e in zip(self.comps(t), v):
-                out += self.tokens(c["t"], e[0]) if len(e) == 1 else ["-"]
+                if len(e) == 1:
+                    out += self.tokens(c["t"], e[0], rep)
+                elif rep == "defaults" and c["o"] == "D":
+                    out += self.tokens(c["t"], c["d"], rep)
+                else:
+                    out += ["-"]
             return out + ["}"]
         if k == "CHOICE":
             cs = self.comps(t)
             idx = [c["n"] for c in cs].index(v[0])
-            return ["C%d" % idx] + self.tokens(cs[idx]["t"], v[1])
+            return ["C%d" % idx] + self.tokens(cs[idx]["t"], v[1], rep)
         if k in ("SEQOF", "SETOF"):
             out = ["["]
-            for e in v:
-                out += self.tokens(t["t"], e)
+            for e in (reversed(v) if rep == "perm" and k == "SETOF" else v):
+                out += self.tokens(t["t"], e, rep)
             return out + ["]"]
         raise ValueError(k)
 
